@@ -38,3 +38,19 @@ __CPROVER_assigns(i, out->size, __CPROVER_object_whole(out->data))
 __CPROVER_loop_invariant(i <= len && out->size == __CPROVER_loop_entry(out->size) + i && (size_t)len + headlen <= in->size && headlen <= 5)
 __CPROVER_decreases(len - i)
 //@ end
+
+//@ function PacketMPIDecode2
+//@ contract
+__CPROVER_requires(MVEC_OK(in) && __CPROVER_is_fresh(out, sizeof(*out)))
+__CPROVER_assigns(*out)
+__CPROVER_ensures(__CPROVER_return_value == 0 || (in->size >= 2 && __CPROVER_return_value == 2 + MPILEN(in) && in->size >= __CPROVER_return_value))
+__CPROVER_ensures(in->size < 2 ==> __CPROVER_return_value == 0)
+//@ end
+
+//@ function PacketMPIDecode2_secure
+//@ contract
+__CPROVER_requires(MVEC_OK(in) && __CPROVER_is_fresh(out, sizeof(*out)))
+__CPROVER_assigns(*out)
+__CPROVER_ensures(__CPROVER_return_value == 0 || (in->size >= 2 && __CPROVER_return_value == 2 + MPILEN(in) && in->size >= __CPROVER_return_value))
+__CPROVER_ensures(in->size < 2 ==> __CPROVER_return_value == 0)
+//@ end
